@@ -213,6 +213,11 @@ func (b *verifC16Batch) runSession(s *verifC16Sess) {
 				go b.dialLoop(s, i, s.Role == "pair-early", accDone, results)
 			}
 		}
+		if s.Role == "pair-dup-accept" {
+			// the first accept can then only return with a connection or through our own cancel: while the
+			// duplicate is judged it is certainly still waiting
+			s.NoDDL = true
+		}
 		if s.Role == "pair-early" {
 			startDialers() // may well arrive before the registration exists
 		}
@@ -399,6 +404,11 @@ func verifC16MakeBatch(rng *rand.Rand, n int) []*verifC16Sess {
 			s.DDelay = 0
 		}
 		s.NoDDL = rng.Intn(4) == 0
+		if s.Role == "pair-dup-accept" {
+			// the first accept can then only return with a connection or through our own cancel: while the
+			// duplicate is judged it is certainly still waiting
+			s.NoDDL = true
+		}
 		if s.Role == "pair-early" {
 			// the dialer really comes first: its first attempt finds no registration
 			s.ADelay = time.Duration(3000+rng.Intn(20000)) * time.Microsecond
@@ -506,7 +516,7 @@ func TestVerifC16Listener(t *testing.T) {
 	defer rec.Close()
 	rng := kit.Rand("c16listener")
 	sizes := []int{2, 32, 3}
-	extra := kit.Tier(3, 30)
+	extra := kit.Tier(3, 50)
 	for i := 0; i < extra; i++ {
 		sizes = append(sizes, 2+rng.Intn(31))
 	}
